@@ -41,6 +41,13 @@ func VerifC20Backup(h *verifh.H) {
 	hub := VerifOpenHub(env)
 	ds, err := hub.Dsm.CreateDataset("d", nil)
 	h.Assert(err == nil, "create")
+	if h.Param("delJob", 0) == 1 {
+		for _, n := range []string{"x", "y"} {
+			xd, err := hub.Dsm.CreateDataset(n, nil)
+			h.Assert(err == nil, "create")
+			h.Assert(xd.StoreEntities([]*Entity{NewEntity("ns0:"+n+"1", 0)}) == nil, "write")
+		}
+	}
 	bm := vNewBackupManager(h, hub, location)
 	nops := h.Param("ops", 3)
 	ids := []string{"ns0:e1", "ns0:e2"}
@@ -54,6 +61,9 @@ func VerifC20Backup(h *verifh.H) {
 		}
 		if h.Param("faultJob", 0) == 1 {
 			h.Assume(op == 0 || op == 1 || op == 2 || op == 6) // write, backup run, restart, faulty backup run
+		}
+		if h.Param("delJob", 0) == 1 {
+			h.Assume(op == 0 || op == 1 || op == 2 || op == 7 || op == 8) // write, backup run, restart, dataset deleted, dataset renamed
 		}
 		if k == nops-1 {
 			op = 1 // histories end with a backup run (the interesting observation point)
@@ -114,6 +124,20 @@ func VerifC20Backup(h *verifh.H) {
 		case 4: // another dataset is created
 			_, err := hub.Dsm.CreateDataset("x"+itoa(k), nil)
 			h.Assert(err == nil, "create")
+		case 7: // the dataset x (created with the hub) is deleted, or created again
+			if hub.Dsm.IsDataset("x") {
+				h.Assert(hub.Dsm.DeleteDataset("x") == nil, "dataset deleted")
+			} else {
+				_, err := hub.Dsm.CreateDataset("x", nil)
+				h.Assert(err == nil, "dataset created again")
+			}
+		case 8: // the dataset y is renamed to y2, or back
+			from, to := "y", "y2"
+			if !hub.Dsm.IsDataset("y") {
+				from, to = "y2", "y"
+			}
+			_, err := hub.Dsm.UpdateDataset(from, &UpdateDatasetConfig{ID: to})
+			h.Assert(err == nil, "dataset renamed")
 		case 2: // the hub (and with it the backup manager) restarts
 			hub = hub.Restart()
 			ds = hub.Dsm.GetDataset("d")
